@@ -112,6 +112,25 @@ def alphabet(seed_):
     add('seq_sc3', 'make_sequence', 'Structured Append structured append', symbol_count=3)
     add('seq_sc3_q', 'make_sequence', 'Structured Append structured append', symbol_count=3, error='Q')
     add('seq_single', 'make_sequence', 'short', version=2)
+    # serialisations (make + save): the document must not depend on what was rendered before
+    def render(name, kind, **save):
+        A[name] = {'api': 'render', 'content': symobs.enc_content('Render me'), 'kw': {'make': {'micro': False}, 'kind': kind, 'save': save}}
+    render('pam_alpha_int1', 'pam', dark=(10, 20, 30, 1))
+    render('pam_alpha_float1', 'pam', dark=(10, 20, 30, 1.0))
+    render('pam_light_int1', 'pam', light=(250, 250, 250, 1))
+    render('pam_light_float1', 'pam', light=(250, 250, 250, 1.0))
+    render('xpm_float1', 'xpm', dark=(10, 20, 30, 1.0))
+    render('png_black_name', 'png', dark='black', finder_dark='#000', scale=2)
+    render('png_black_tuple', 'png', dark=(0, 0, 0), finder_dark='black', scale=2)
+    render('png_alpha', 'png', dark='#00000080')
+    render('svg_red', 'svg', dark='red', scale=2)
+    render('svg_red_hex', 'svg', dark='#ff0000', scale=2)
+    render('svg_default', 'svg')
+    render('eps_blue', 'eps', dark='blue', light='white')
+    render('pdf_blue', 'pdf', dark='blue', light='#fff')
+    render('ppm_grey', 'ppm', dark='gray', light='silver')
+    render('txt', 'txt')
+    render('xbm_s2', 'xbm', scale=2)
     add('refused_overflow', 'make', 'x' * 30, version=1, error='H')
     add('refused_mode', 'make', 'abc', mode='numeric')
     return A
@@ -119,6 +138,13 @@ def alphabet(seed_):
 
 def run_call(c):
     import segno
+    if c['api'] == 'render':       # make + save: the result is the document
+        kw = c['kw']
+        qr = segno.make(symobs.dec_content(c['content']), **kw['make'])
+        buf = io.BytesIO() if kw['kind'] in BINARY else io.StringIO()
+        save = {k: (tuple(v) if isinstance(v, list) else v) for k, v in kw['save'].items()}
+        qr.save(buf, kind=kw['kind'], **save)
+        return buf.getvalue()
     fn = getattr(segno, c['api'])
     return fn(symobs.dec_content(c['content']), **c['kw'])
 
@@ -174,7 +200,7 @@ def do_call(log, thread, name, c, live_content_kw=None):
     kw = dict(c['kw'])
     before = sha((repr(content), repr(sorted(kw.items(), key=repr))))
     try:
-        r = getattr(segno, c['api'])(content, **kw)
+        r = getattr(segno, c['api'])(content, **kw) if c['api'] != 'render' else run_call(c)
         d = result_digest(r)
     except Exception as e:  # noqa
         r, d = None, exc_digest(e)
@@ -200,12 +226,20 @@ _orig_result_digest = result_digest
 def result_digest(r):  # noqa: F811
     if isinstance(r, _Raised):
         return r[0]
+    if isinstance(r, (bytes, str)):
+        from .props_routes import _TS
+        b = r if isinstance(r, bytes) else r.encode('utf-8')
+        for rx, rep in _TS:
+            b = rx.sub(rep, b)
+        return sha(b)
     return _orig_result_digest(r)
 
 
 def use_symbol(log, thread, r, name):
     """serialises / iterates a returned symbol; must not change it (checked through the digests of the next step)"""
     import segno
+    if isinstance(r, (bytes, str)):
+        return
     qrs = list(r) if isinstance(r, tuple) and not hasattr(r, 'matrix') else [r]
     for qr in qrs[:2]:
         for kind in KINDS:
